@@ -43,7 +43,7 @@ def make_cfg(seed, i):
     rng = engine.rng_for(seed, NUM, i)
     r = rng.random
     cfg = campaign.gen_cfg(rng, noise_p=0.25, averaging_p=0.2, box_p=0.35, proj_p=0.0, reg_p=0.07, restarts_p=0.55, nmax=4, mmax=7,
-                           maxfuns=(10, 25, 50, 100, 200), term_p=0.25, allow=("restarts", "regression", "growing", "tols", "random_init"))
+                           maxfuns=(10, 25, 50, 100, 200), term_p=0.25, allow=("restarts", "regression", "growing", "tols", "random_init", "rare"))
     up = cfg["user_params"]
     up["logging.save_diagnostic_info"] = True
     up["logging.save_poisedness"] = bool(r() < 0.1)
